@@ -25,6 +25,23 @@ def mem(bits, x):
     return z3.And(x >= 0, x / 8 < bits.n, z3.Or(*[z3.And(x % 8 == j, bit(b, j)) for j in range(8)]))
 
 
+def memq(bits, q, j):
+    """mem(bits, 8q + j) with the division done by hand: byte q exists and its bit j is set"""
+    return z3.And(q >= 0, q < bits.n, bit(z3.Select(bits.arr, q), j))
+
+
+def allbits(fn):
+    """a statement about every x >= 0, written per byte q and bit j (x = 8q + j covers every x >= 0 exactly once; no
+    x < 0 is ever a member by the definition of mem): keeps div/mod of the quantified variable out of the formula"""
+    q = z3.Int("aq")
+    return z3.And(*[z3.ForAll([q], z3.Implies(q >= 0, fn(q, j, 8 * q + j))) for j in range(8)])
+
+
+def onebit(j, fn):
+    q = z3.Int("aq")
+    return z3.ForAll([q], z3.Implies(q >= 0, fn(q, j, 8 * q + j)))
+
+
 def bytes_ok(bits):
     k = z3.Int("bk")
     return z3.And(bits.n >= 0, z3.ForAll([k], z3.Implies(z3.And(0 <= k, k < bits.n), z3.And(0 <= z3.Select(bits.arr, k), z3.Select(bits.arr, k) <= 255))))
@@ -129,7 +146,7 @@ def register_invert(R):
     R.contract(K + "_zero_extra_bits", props=["C20"], setup=mk,
                requires=[lambda I, env: bytes_ok(B(env)), "size >= 0"],
                ensures=[lambda I, env: bytes_ok(B(env)), lambda I, env: B(env).n == B0(I).n,
-                        lambda I, env: z3.ForAll([x], mem(B(env), x) == z3.And(mem(B0(I), x), x < env["size"]))],
+                        lambda I, env: allbits(lambda q, j, xx: memq(B(env), q, j) == z3.And(memq(B0(I), q, j), xx < env["size"]))],
                modifies=["self.bits"], opts={"split_small_shifts": True},
                loops={0: LoopSpec(index="_j", inv=[z_inv])},
                canaries=[Canary("keeps-one-bit-too-many", "bits[full] &= (1 << (size & 7)) - 1", "bits[full] &= (1 << ((size & 7) + 1)) - 1"),
@@ -137,29 +154,40 @@ def register_invert(R):
                note="clears every bit at position size or beyond and nothing below it")
 
     # ---- invert_update(size): S := [0, size) - S
+    def compl_instance(v):
+        return z3.Implies(z3.And(0 <= v, v <= 255), z3.And(*[bit(255 - v, j) == z3.Not(bit(v, j)) for j in range(8)]))
+
+    def compl_lemma():
+        v = z3.Int("cv")
+        return [("bit j of 255 - v is the negation of bit j of v, for every byte v and j < 8", compl_instance(v))]
+    R.lemma("bitsets/complement-byte", ["C20"], compl_lemma,
+            note="used by BitSet.invert_update: its postcondition is proved under the instance of this lemma at the byte holding x")
+
     def mid(I, kk):
         b0 = B0(I)
         return z3.If(kk < b0.n, z3.Select(b0.arr, kk), 0)
 
-    def inv_inv(I, env):
+    def inv_parts(I, env):
         b, b0 = B(env), B0(I)
         idx = to_z3(env["_j"])
         need = (to_z3(env["size"]) + 8) / 8
-        return z3.And(b.n == z3.If(need > b0.n, need, b0.n), idx <= b.n,
-                      z3.ForAll([k], z3.Implies(z3.And(0 <= k, k < idx), z3.Select(b.arr, k) == 255 - mid(I, k))),
-                      # the same fact bit by bit (complementing a byte flips each of its 8 bits): proved for the one new
-                      # element per iteration, so that the postcondition needs no arithmetic on quantified bytes
-                      z3.ForAll([k], z3.Implies(z3.And(0 <= k, k < idx),
-                                                z3.And(0 <= z3.Select(b.arr, k), z3.Select(b.arr, k) <= 255,
-                                                       *[bit(z3.Select(b.arr, k), j) == z3.Not(bit(mid(I, k), j)) for j in range(8)]))),
-                      z3.ForAll([k], z3.Implies(z3.And(idx <= k, k < b.n), z3.Select(b.arr, k) == mid(I, k))))
+        return [z3.And(b.n == z3.If(need > b0.n, need, b0.n), idx <= b.n),
+                z3.ForAll([k], z3.Implies(z3.And(0 <= k, k < idx), z3.Select(b.arr, k) == 255 - mid(I, k))),
+                z3.ForAll([k], z3.Implies(z3.And(idx <= k, k < b.n), z3.Select(b.arr, k) == mid(I, k)))]
 
     R.contract(K + "invert_update", props=["C20"], setup=mk,
                requires=[lambda I, env: bytes_ok(B(env)), "size >= 0"],
-               ensures=[lambda I, env: bytes_ok(B(env)),
-                        lambda I, env: z3.ForAll([x], mem(B(env), x) == z3.And(0 <= x, x < env["size"], z3.Not(mem(B0(I), x))))],
+               # the set equation is proved with the lemma `bitsets/complement-byte` (complementing a byte flips each of its
+               # 8 bits; discharged in the same run, for all bytes) instantiated at the old byte q:
+               # forall q, j. lemma_instance(old byte q) ==> (8q+j in S'  <=>  8q+j < size and 8q+j not in S)
+               ensures=[lambda I, env: bytes_ok(B(env))] +
+                       [(lambda jj: (lambda I, env: onebit(jj, lambda q, j, xx: z3.Implies(
+                           compl_instance(mid(I, q)), memq(B(env), q, j) == z3.And(xx < env["size"], z3.Not(memq(B0(I), q, j)))))))(jj)
+                        for jj in range(8)],
                modifies=["self.bits"],
-               loops={0: LoopSpec(index="_j", inv=[inv_inv])},
+               loops={0: LoopSpec(index="_j", inv=[lambda I, env: inv_parts(I, env)[0], lambda I, env: inv_parts(I, env)[1],
+                                                    lambda I, env: inv_parts(I, env)[2]])},
+               timeout_ms=90000,     # the per-bit clauses take 2-17 s in z3 on an idle machine; a wide margin for loaded runs
                canaries=[Canary("no-growth", "if needed > len(bits):", "if False:"),
                          Canary("extra-bits-kept", "self._zero_extra_bits(size)", "pass")],
                note="invert_update(size) makes the set the complement within [0, size), also when the array has to grow first")
